@@ -79,6 +79,29 @@ fn explore(ctx: &Ctx, p: &Params, alphabet: &[(String, RawOp)], depth: usize, la
         for (ai, (aname, op)) in alphabet.iter().enumerate() {
             // reset(None) only while the size in effect is the constructor's (both readings of its doc agree)
             if matches!(op, RawOp::Reset) && !p.lzma2 && eff != p.size {
+                // the doc of reset(None) has two readings here (size of the constructor / size last specified): the
+                // next decompress must behave like a new decoder under one of them; the state is not explored further
+                for (bname, bop) in alphabet.iter() {
+                    if let RawOp::Dec(d) = bop {
+                        let (mut h, _, _) = replay(&hist);
+                        let _ = h.apply(op);
+                        let r = h.apply(bop);
+                        out.edges += 2;
+                        let agrees = |sz: Option<u64>| {
+                            let mut f = fresh(p, sz);
+                            let rf = f.apply(&RawOp::Dec(d.clone()));
+                            r.v.class() == rf.v.class() && r.out == rf.out && (!rf.v.is_ok() || r.consumed == rf.consumed)
+                        };
+                        out.reset_checks += 1;
+                        if !agrees(eff) && !agrees(p.size) {
+                            let mut ops: Vec<RawOp> = hist.iter().map(|&i| alphabet[i].1.clone()).collect();
+                            ops.push(op.clone());
+                            ops.push(bop.clone());
+                            let o = super::c02::obs_of(r.v.clone(), r.out.clone(), r.consumed);
+                            ctx.violation(&case_of(p, &ops), &format!("{}: after reset(None), decompress({}) behaves like a new decoder with the size of the constructor ({:?}) or the size last specified ({:?})", label, bname, p.size, eff), &o, None);
+                        }
+                    }
+                }
                 continue;
             }
             let (mut h, _, _) = replay(&hist);
@@ -117,7 +140,8 @@ fn explore(ctx: &Ctx, p: &Params, alphabet: &[(String, RawOp)], depth: usize, la
             if now_reset {
                 post_reset_fps.insert(fp);
             }
-            if next.len() <= depth && !seen.contains_key(&(fp, now_reset, eff_next)) {
+            let shallow = next.len() <= 3;
+            if next.len() <= depth && (shallow || !seen.contains_key(&(fp, now_reset, eff_next))) {
                 seen.insert((fp, now_reset, eff_next), next.len());
                 out.states += 1;
                 if next.len() < depth {
@@ -207,6 +231,10 @@ pub fn run(tier: Tier) -> i32 {
         for (name, cs) in &seqs {
             let w = lzma2::write(cs);
             al.push((format!("{} [{}]", name, chunks_str(cs)), RawOp::Dec(Hex(w.bytes.clone()))));
+            if name.starts_with("uncompressed then inherit") {
+                // truncated inside the payload of the uncompressed chunk
+                al.push(("uncompressed chunk truncated inside its payload".into(), RawOp::Dec(Hex(w.bytes[..6].to_vec()))));
+            }
             if name.starts_with("well-formed (3,0,2)") {
                 let mut t = w.bytes.clone();
                 t.truncate(t.len() - 3);
